@@ -219,6 +219,17 @@ fn id_annot_to_doc(
   )
 }
 
+/// Whether the printed expression ends with `.name` (a field or method name without type arguments).
+fn ends_with_member_name(expression: &expr::E<()>) -> bool {
+  match expression {
+    expr::E::FieldAccess(e) => e.explicit_type_arguments.is_none(),
+    expr::E::MethodAccess(e) => e.explicit_type_arguments.is_none(),
+    expr::E::Unary(e) => ends_with_member_name(&e.argument),
+    expr::E::Binary(e) => ends_with_member_name(&e.e2),
+    _ => false,
+  }
+}
+
 fn create_doc_for_subexpression_considering_precedence_level(
   heap: &Heap,
   comment_store: &CommentStore,
@@ -627,6 +638,21 @@ fn create_doc_without_preceding_comment(
         Document::Text(e.operator.kind_str()),
         Document::Text(" "),
       ]);
+      // `x.name <` is read as the start of explicit type arguments, so such a left operand keeps its parentheses.
+      if e.operator == expr::BinaryOperator::LT && ends_with_member_name(&e.e1) {
+        return Document::concat(vec![
+          parenthesis_surrounded_doc(create_doc(heap, comment_store, &e.e1)),
+          operator_preceding_comments_docs,
+          operator_doc,
+          create_doc_for_subexpression_considering_precedence_level(
+            heap,
+            comment_store,
+            expression,
+            &e.e2,
+            true,
+          ),
+        ]);
+      }
       if e.e1.precedence() == expression.precedence() {
         // Since we are doing left to right evaluation, this is safe.
         return Document::concat(vec![
